@@ -99,3 +99,40 @@ def calls_on_field(body, adt_suffix, field, names=None):
 
 def bool_const_sources(body, operand):
     return [s[1] for s in body.const_sources(operand) if isinstance(s[1], bool)]
+
+
+# ---- T9 panic audit -------------------------------------------------------------------------
+
+PANIC_FNS = ("core::panicking::", "std::rt::begin_panic", "core::option::unwrap_failed", "core::option::expect_failed",
+             "core::result::unwrap_failed", "core::slice::index::slice_", "core::str::slice_error_fail",
+             "alloc::raw_vec::capacity_overflow")
+PANIC_METHODS = {"unwrap", "expect", "unwrap_err", "expect_err", "unwrap_unchecked", "unreachable_unchecked"}
+
+
+def panic_sites(body, include_index=True):
+    """Potential panic sites of a body: (kind, description, line, block). Arithmetic-overflow
+    asserts are excluded (they do not exist in release builds)."""
+    from mirlib import describe_call
+    out = []
+    for c in body.calls:
+        d = c.defpath
+        if any(d.startswith(p) for p in PANIC_FNS):
+            out.append(("panic", d.split("::")[-1], c.line, c.block))
+        elif c.name in PANIC_METHODS and (d.startswith("core::option::Option") or d.startswith("core::result::Result")):
+            out.append((c.name, describe_call(body, c)[:120], c.line, c.block))
+        elif include_index and c.via_name in ("index", "index_mut") and (c.trait or "").endswith("ops::index::Index" if c.via_name == "index" else "ops::index::IndexMut"):
+            t = c.callee.get("self_ty") or c.callee.get("arg0_ty") or ""
+            if "HashMap" in t or "BTreeMap" in t or t.startswith("[") or "Vec<" in t or "str" == t or "String" in t or "Bytes" in t or "VecDeque" in t:
+                out.append(("index", describe_call(body, c)[:120], c.line, c.block))
+        elif c.name in ("split_to", "split_off", "advance", "copy_from_slice", "copy_to_slice", "get_u8", "get_u16", "get_u32", "get_u64", "get_u128", "get_i64", "get_i32", "get_f64", "copy_to_bytes", "remove", "swap_remove", "insert") and False:
+            pass
+    for i, bl in enumerate(body.blocks):
+        if bl.get("cleanup"):
+            continue
+        t = bl["t"]
+        if t["k"] == "assert":
+            m = t.get("msg", "")
+            if m.startswith("Overflow") or m in ("OverflowNeg",):
+                continue
+            out.append(("assert:" + m, "", t["line"], i))
+    return out
